@@ -152,7 +152,7 @@ def count_distinct(files):
 
 
 def write_replay(prop, tier, seed, rec):
-    d = os.path.join(env.VERIF, 'replays', prop.id)
+    d = os.path.join(env.OUT, 'replays', prop.id)
     os.makedirs(d, exist_ok=True)
     body = {'property': prop.id, 'tier': tier, 'seed': seed,
             'case_index': rec.get('k'), 'payload': rec['payload'],
@@ -202,12 +202,17 @@ def conclude(prop, tier, seed, m, dead, extra, t_start):
 
     replay_paths = []
     seen = set()
-    for rec in violations:
+    per_sig = {}
+    for rec in sorted(violations, key=lambda r: len(json.dumps(r['payload']))):
         sig = '|'.join(sorted(set(f['check'] for f in rec['failures'])))
-        if sig in seen and len(replay_paths) >= 3:
+        if per_sig.get(sig, 0) >= 2:
             continue
-        seen.add(sig)
-        replay_paths.append((write_replay(prop, tier, seed, rec), rec))
+        path = write_replay(prop, tier, seed, rec)
+        if path in seen:
+            continue
+        seen.add(path)
+        per_sig[sig] = per_sig.get(sig, 0) + 1
+        replay_paths.append((path, rec))
     write_evidence(prop, tier, seed, m, len(violations), known_lines,
                    inconclusive, time.time() - t_start)
     for key, rec in sorted(known_lines.items()):
@@ -274,7 +279,7 @@ def write_evidence(prop, tier, seed, m, n_viol, known_lines, inconclusive,
           'level': prop.level, 'coverage': cov,
           'assumptions': list(prop.assumptions),
           'wall_s': round(wall, 2), 'violations': n_viol}
-    d = os.path.join(env.VERIF, 'evidence')
+    d = os.path.join(env.OUT, 'evidence')
     os.makedirs(d, exist_ok=True)
     tmp = os.path.join(d, '.%s.tmp' % prop.id)
     with open(tmp, 'w') as fh:
